@@ -271,8 +271,9 @@ Definition mk_date (ns : Z) : res value := if date_ok ns then Ok (VDate ns) else
 Definition in_i32 (z : Z) : bool := (- 2 ^ 31 <=? z) && (z <? 2 ^ 31).
 
 Definition int_or_float (exact : Z) (fl : f64) : value :=
-  (* out of range: the (rounded) float, kept a float even when it is -2^63 exactly (fix: i64::MIN - 1 is not i64::MIN) *)
-  if in_i64 exact then VInt exact else VFloat fl.
+  (* out of range: the float computation, normalised like every number (an integral in-range double is an Int): the invariant
+     behind == / hashing / ordering; 00e4db6 broke it and 2nd-hunt agents found < == > all false, reverted *)
+  if in_i64 exact then VInt exact else from_float fl.
 
 Definition vadd_typed (l r : value) : res value :=
   match l, r with
